@@ -370,7 +370,7 @@ def run(ck):
             for key, what in ws_recv.check_against_rfc(c, r):
                 if "control-callback-after-violation" in key or "processing-after-close-frame" in key:
                     continue          # C02's business (reported there), not a statement of C16
-                ck.violation(f"limits/{m['kind']}/{st}/" + key,
+                ck.violation(key if key.startswith("config/") else f"limits/{m['kind']}/{st}/" + key,
                              f"[{fw}] limits msg={c['max_msg']} frame={c['max_frame']}, state {st}, size {m['size']}, {m['layout']}/{m['variant']}: {what}",
                              {"fw": fw, "case": c, "observed": r, "grid": m}, found_input=True)
             failed = any(e[0] == "drop" for e in r["events"]) or any(e[0] == "sendclose" and e[1] == 1009 for e in r["events"])
